@@ -39,3 +39,12 @@ def r_conversion(run, tree):
 
 
 RULES = [r_conversion, r1_delegation, r2_gates, r3_equality]
+
+
+def t_history_space(run, tree):
+    run.rule("C20.T1", "thorough: every sequence of up to 3 dictionary operations on a fresh Datagroup (12 operations: set with matching / mismatching length, del, pop, clear, "
+             "update with good / bad items) agrees step by step with a reference dictionary with the insertion gate", "D7 fold of the Datagroup class over the complete space of short histories", "", floor=1)
+    cf.check_datagroup_history_space(run, tree, depth=3)
+
+
+THOROUGH_RULES = [t_history_space]
